@@ -125,6 +125,7 @@ fn main() {
                     "deep" => record::gen_deep(&mut rec, &mut rng, n),
                     "builtins" => record::gen_builtins(&mut rec, &mut rng, n),
                     "literals" => record::gen_literals(&mut rec, &mut rng, n),
+                    "macros" => record::gen_macros(&mut rec, &mut rng, n),
                     other => {
                         eprintln!("unknown generator {other}");
                         std::process::exit(2);
